@@ -63,10 +63,19 @@ class RegionTransform(Contract):
     def modifies(s):
         return ()
 
+    def definition(s, E, st):
+        """optional: the transformed corners as terms (definitional result at use sites); None = fresh symbols + assumed post"""
+        return None
+
     def fresh_region(s, E, st, units):
         d = len(st.self.attrs['_pmin'].elems)
-        pmin = Vec([E.fresh('tpmin', 'float', True) for _ in range(d)])
-        pmax = Vec([E.fresh('tpmax', 'float', True) for _ in range(d)])
+        df_ = s.definition(E, st)
+        if df_ is not None:
+            pmin = Vec([E.npscalar(E.to_float(x)) for x in df_[0]])
+            pmax = Vec([E.npscalar(E.to_float(x)) for x in df_[1]])
+        else:
+            pmin = Vec([E.fresh('tpmin', 'float', True) for _ in range(d)])
+            pmax = Vec([E.fresh('tpmax', 'float', True) for _ in range(d)])
         if st.inplace:
             st.old = st.old or {}
             o = st.self
@@ -145,6 +154,10 @@ class RegionTranslate(RegionTransform):
 
     def frame(s, E, st):
         return [('self', st.self)] if not st.inplace else []
+
+    def definition(s, E, st):
+        pm, px = region_attrs(st.self)
+        return [E.arith('+', a, v) for a, v in zip(pm, st.v)], [E.arith('+', b, v) for b, v in zip(px, st.v)]
 
     def fresh_result(s, E, st):
         return s.fresh_region(E, st, st.self.attrs['_units'])
@@ -251,6 +264,18 @@ class RegionScale(RegionTransform):
 
     def frame_always(s, E, st):
         return [('self', st.self)]
+
+    def definition(s, E, st):
+        pm, px = region_attrs(st.self)
+        lo, hi = [], []
+        for a, b, r_, f in zip(pm, px, st.ref, st.f):
+            c1 = E.arith('+', r_, E.arith('*', f, E.arith('-', a, r_)))
+            c2 = E.arith('+', r_, E.arith('*', f, E.arith('-', b, r_)))
+            # the sign of the factor decides which image is the lower corner (same case split as in the post-condition)
+            pos = E.cmp('>', f, 0)
+            lo.append(E.ite(pos, c1, c2))
+            hi.append(E.ite(pos, c2, c1))
+        return lo, hi
 
     def fresh_result(s, E, st):
         return s.fresh_region(E, st, st.self.attrs['_units'])
@@ -472,6 +497,7 @@ class MeshTranslate(MeshTransform):
     def configs(s, tier):
         out = [{'ndim': d, 'inplace': ip, 'nsub': 0} for d in NDIMS[tier] for ip in (False, True)]
         out += [{'ndim': d, 'inplace': True, 'nsub': 1} for d in NDIMS[tier]]
+        out += [{'ndim': d, 'inplace': False, 'nsub': 1} for d in NDIMS[tier] if d <= 2 or tier == 'thorough']
         out += [{'ndim': 2, 'inplace': ip, 'nsub': 0, 'bad': 'len'} for ip in (False, True)]
         return out
 
@@ -524,6 +550,9 @@ class MeshScale(MeshTransform):
                         {'ndim': d, 'inplace': ip, 'nsub': 0, 'factor': 'vector', 'ref': 'point'}]
             out += [{'ndim': d, 'inplace': True, 'nsub': 1, 'factor': 'scalar', 'ref': 'none'},
                     {'ndim': d, 'inplace': True, 'nsub': 1, 'factor': 'vector', 'ref': 'point'}]
+            if d <= 2 or tier == 'thorough':
+                out += [{'ndim': d, 'inplace': False, 'nsub': 1, 'factor': 'scalar', 'ref': 'none'},
+                        {'ndim': d, 'inplace': False, 'nsub': 1, 'factor': 'vector', 'ref': 'point'}]
         return out
 
     def pre_state(s, E, cfg):
